@@ -158,8 +158,7 @@ type (
 		prev    *WithdrawRecord
 	}
 	validatorDelWithdrawChange struct {
-		address *common.Address
-		prev    *WithdrawRecord
+		prev []*WithdrawRecord // the whole queue before the removal, in order
 	}
 )
 
@@ -206,7 +205,7 @@ func (ch validatorAddUBDChange) dirtied() *common.Address {
 
 func (ch validatorDelWithdrawChange) revert(s *StateDB) {
 	if queue, err := s.getWithdrawQueue(); err == nil && queue != nil {
-		queue.Add(ch.prev)
+		queue.Records = ch.prev
 	}
 }
 
